@@ -71,14 +71,8 @@ Section Tree.
     | VArr _ | VTab _ => Tree.SBool false        (* not a leaf: SerFmt.emb never puts one under ILeaf *)
     end.
 
-  (* Pretty::visit_array_mut on an array of len >= 2: every element `decor_mut().set_prefix("\n    ")` *)
-  Definition ML_PREFIX : bytes := [x0a; x20; x20; x20; x20].
-  Definition ml_elem (v : value) : value :=
-    match v with
-    | VScalar s r d => VScalar s r (mkDecor (Some (RExplicit ML_PREFIX)) (d_suffix d))
-    | VArray vals tr c d sp => VArray vals tr c (mkDecor (Some (RExplicit ML_PREFIX)) (d_suffix d)) sp
-    | VInline items pre im dt d sp => VInline items pre im dt (mkDecor (Some (RExplicit ML_PREFIX)) (d_suffix d)) sp
-    end.
+  (* Pretty::visit_array_mut on an array of len >= 2: every element `decor_mut().set_prefix("\n    ")` (Model/Build.v
+     ml_elem), set_trailing("\n"), set_trailing_comma(true); shorter arrays: set_trailing(""), set_trailing_comma(false) *)
   Definition mk_array (es : list value) : value :=
     if ml && (2 <=? length es)
     then VArray (map (fun e => IValue (ml_elem e)) es) (RExplicit [x0a]) true decor_default None
